@@ -32,4 +32,8 @@ ENTRIES = {
   technique="bounded symbolic execution (engine A, z3): real annotate counting functions and kmers on symbolic annotation tables / sequences vs If-sum enumeration",
   text="count_annotations (all dim modes, explicit shape), pairwise_annotations (symmetric or not), pairwise_annotations_spacing and kmers (with and without scores) run on tables whose every field (example, type, start, end) is symbolic and on symbolic sequences/scores; symbolic indices go through guarded stores (numpy negative-index wrap and IndexError modelled); z3 proves every entry equals brute-force counting written as sums of If terms, including that overlapping or too-distant pairs contribute nothing.",
   note=COMMON_NOTE + " <= 3 rows quick / 4 thorough, <= 2 examples, <= 3 types, coordinates <= 6, max_distance <= 3; kmers A <= 4, L <= 5, k <= 3; tensor input form only."),
+ "C20": dict(
+  technique="bounded symbolic execution (engine A, z3): real greedy_substitution with an uninterpreted model, symbolic target, tol and max_iter; step optimality proved against every fitting candidate",
+  text="greedy_substitution/_fast_tile_substitute run over the real substitute, one_hot_encode and predict on a symbolic starting sequence, a model that is an uninterpreted function of the sequence, symbolic target, tol >= 0 and max_iter in [-1, K]; accepted steps are observed through the module's own substitute/predict names. Per path z3 proves: result is the start with exactly the observed windows overwritten (valid one-hot, same length), final loss <= starting loss, #steps <= max_iter, every accepted step is an arg-min over ALL (motif, position) with 0 <= p <= L-len(motif), a declined evaluation had no improving candidate, every continued evaluation improved by more than tol, and the run ended at the cap or with improvement <= tol.",
+  note=COMMON_NOTE + " L1 loss (piece-wise linear); L <= 4 quick / 5 thorough, <= 3 motifs, unwinding K+1 evaluations (K <= 2): paths needing more are counted in evidence as outside the bound."),
 }
